@@ -145,6 +145,24 @@ def eb_loops(pred):
     return f
 
 
+def unsup_loops(k, header, kw):
+    """the `.iter().any(..)` loops of the derive_* functions (rule iter_any): no hit so far <=> no unsupported type so far"""
+    mt = re.search(r"while\s+(__i\d+)\s*<\s*([\w\.]+)\.len\(\)", header)
+    if not mt:
+        return None
+    i, v = mt.group(1), mt.group(2)
+    r = i.replace("__i", "__r")
+    if v.endswith("fields"):
+        hit = f"no_method_ty((#[trigger] {v}@[j]).1)"
+    elif v.endswith("variants"):
+        hit = f"(exists|q: int| 0 <= q < (#[trigger] {v}@[j]).1@.len() && no_method_ty(#[trigger] {v}@[j].1@[q]))"
+    else:       # the payload types of one variant
+        hit = f"no_method_ty(#[trigger] {v}@[j])"
+    return (f"invariant {i} <= {v}.len(), !{r} ==> forall|j: int| 0 <= j < {i} ==> !{hit},\n"
+            f"  {r} ==> exists|j: int| 0 <= j < {v}.len() && {hit},\n"
+            f"decreases {v}.len() - {i},")
+
+
 def expand_loops(k, header, kw):
     if "__iv.len()" in header:
         return ("invariant __iv@.len() <= items0.len(), __iv@ == items0.subrange(items0.len() - __iv@.len(), items0.len() as int),\n"
@@ -268,15 +286,21 @@ UNIT = Unit(
                    "lemma_string_field_kept(__p1, parts@, struct_def.fields@, i); } assert(string_struct_parts(parts@, struct_def.name.0@, struct_def.fields@)); }\nlet ghost __pf1 = parts@;"),
                   ("let body = concat_parts(parts, attr_ptr);", "line-after", "proof { assert(chain(body, __pf1)); }")],
            loop_fn=ss_loops),
-        Fn(file=D, name="derive_struct_tojson", ret="r", rewrites=RW,
+        Fn(file=D, name="unsupported_field_type", ret="r", optional=True,
+           rewrites=RW + [(re.compile(r"matches!\(\s*ty,\s*TypeExpr::TTuple \{ \.\. \} \| TypeExpr::TArray \{ \.\. \} \| TypeExpr::TFunc \{ \.\. \}\s*\)"),
+                           "(match ty { TypeExpr::TTuple { .. } | TypeExpr::TArray { .. } | TypeExpr::TFunc { .. } => true, _ => false })", 1)],
+           obligation="true exactly for tuple, array and function types", contract="ensures r == no_method_ty(*ty),"),
+        Fn(file=D, name="derive_struct_tojson", ret="r", rewrites=RW, attrs="#[verifier::loop_isolation(false)]", rules=["attrs", "iter_any"], loop_fn=unsup_loops,
+           pre_rewrites=[(re.compile(r"\s*\n\s*\.(?=\w)"), ".", "*")],
            obligation="a generic struct is rejected with a diagnostic; otherwise the result is `impl Name { fn to_json(self: Name) -> string { <body> } }` with "
                       "the body build_struct_json_body builds",
-           contract="ensures (r is Err) == (struct_def.generics@.len() > 0),\n"
+           contract="ensures (r is Err) == struct_unsupported(*struct_def),\n"
                     "        r is Ok ==> derived_impl(r->Ok_0, struct_def.name.0@, \"to_json\"@) && struct_json_body(r->Ok_0.methods@[0].body, *struct_def),"),
-        Fn(file=D, name="derive_struct_tostring", ret="r", rewrites=RW,
+        Fn(file=D, name="derive_struct_tostring", ret="r", rewrites=RW, attrs="#[verifier::loop_isolation(false)]", rules=["attrs", "iter_any"], loop_fn=unsup_loops,
+           pre_rewrites=[(re.compile(r"\s*\n\s*\.(?=\w)"), ".", "*")],
            obligation="a generic struct is rejected with a diagnostic; otherwise the result is `impl Name { fn to_string(self: Name) -> string { <body> } }` with "
                       "the body build_struct_body builds",
-           contract="ensures (r is Err) == (struct_def.generics@.len() > 0),\n"
+           contract="ensures (r is Err) == struct_unsupported(*struct_def),\n"
                     "        r is Ok ==> derived_impl(r->Ok_0, struct_def.name.0@, \"to_string\"@) && struct_string_body(r->Ok_0.methods@[0].body, *struct_def),"),
         Fn(file=D, name="build_enum_json_body", rename="enum_json_arm", ret="r", attrs="#[verifier::loop_isolation(false)]", rules=["attrs", "iter_map_collect"],
            cut_from=".map(|(variant_name, fields)| {", cut_inside=True, cut_before="@block-end",
@@ -327,13 +351,15 @@ UNIT = Unit(
            rewrites=RW + [(re.compile(r"let mut (__mo\d+) = Vec::new\(\);"), r"let mut \1: Vec<Arm> = Vec::new();", "*")],
            obligation="the body of the derived to_string of an enum: a match on self with one arm per variant, in declaration order, each as enum_string_arm builds it",
            contract="ensures enum_string_body(r, *enum_def),", loop_fn=eb_loops("string_variant_arm")),
-        Fn(file=D, name="derive_enum_tojson", ret="r", rewrites=RW,
+        Fn(file=D, name="derive_enum_tojson", ret="r", rewrites=RW, attrs="#[verifier::loop_isolation(false)]", rules=["attrs", "iter_any"], loop_fn=unsup_loops,
+           pre_rewrites=[(re.compile(r"\s*\n\s*\.(?=\w)"), ".", "*")],
            obligation="a generic enum is rejected with a diagnostic; otherwise `impl Name { fn to_json(self: Name) -> string { <body> } }` with the body build_enum_json_body builds",
-           contract="ensures (r is Err) == (enum_def.generics@.len() > 0),\n"
+           contract="ensures (r is Err) == enum_unsupported(*enum_def),\n"
                     "        r is Ok ==> derived_impl(r->Ok_0, enum_def.name.0@, \"to_json\"@) && enum_json_body(r->Ok_0.methods@[0].body, *enum_def),"),
-        Fn(file=D, name="derive_enum_tostring", ret="r", rewrites=RW,
+        Fn(file=D, name="derive_enum_tostring", ret="r", rewrites=RW, attrs="#[verifier::loop_isolation(false)]", rules=["attrs", "iter_any"], loop_fn=unsup_loops,
+           pre_rewrites=[(re.compile(r"\s*\n\s*\.(?=\w)"), ".", "*")],
            obligation="a generic enum is rejected with a diagnostic; otherwise `impl Name { fn to_string(self: Name) -> string { <body> } }` with the body build_enum_body builds",
-           contract="ensures (r is Err) == (enum_def.generics@.len() > 0),\n"
+           contract="ensures (r is Err) == enum_unsupported(*enum_def),\n"
                     "        r is Ok ==> derived_impl(r->Ok_0, enum_def.name.0@, \"to_string\"@) && enum_string_body(r->Ok_0.methods@[0].body, *enum_def),"),
         Fn(file=D, name="expand", ret="r", attrs="#[verifier::loop_isolation(false)]", rules=["attrs"],
            pre_rewrites=[("for item in ast.toplevels.into_iter() {", "let ghost items0 = ast.toplevels@; let mut __iv = ast.toplevels; while __iv.len() > 0 { let item = __iv.remove(0);"),
